@@ -66,6 +66,8 @@ func (n *vNet) c17Add(name, networks, unsafe string, last byte, overrides m) *vN
 		base[k] = val
 	}
 	udpAddr := netip.AddrPortFrom(netip.AddrFrom4([4]byte{10, 0, 0, last}), 4242)
+	restore := n.logSetup()
+	defer restore()
 	ctrl, vpn, _, cfg := newSimpleServerWithUdpAndUnsafeNetworks(cert.Version2, n.CA, n.CAKey, name, networks, udpAddr, unsafe, base)
 	nd := &vNode{Name: name, Ctrl: ctrl, Vpn: vpn, UDP: udpAddr, Cfg: cfg, stop: make(chan struct{}), kick: make(chan struct{}, 1)}
 	n.Nodes[name] = nd
